@@ -352,10 +352,19 @@ fn fb_body<'a, T: Feedback<'a>>(out: &mut Out, pfx: &str, fb: &T, base: Base, le
 
 fn as_key<'p, T>(out: &mut Out, pfx: &str, k: &str, u: &'p Unknown<'p>)
 where
-    T: RtcpPacket + TryFrom<&'p Unknown<'p>, Error = RtcpParseError>,
+    T: RtcpPacket
+        + TryFrom<&'p Unknown<'p>, Error = RtcpParseError>
+        + TryFrom<Unknown<'p>, Error = RtcpParseError>,
 {
     let r = guard(|| u.try_as::<T>());
     out.kv(pfx, &format!("as.{k}"), &pres(&r));
+    // the owned `TryFrom<Unknown>`: `Unknown` is not `Clone`, so a second one is parsed from the
+    // same bytes and consumed
+    let owned = guard(|| {
+        let second: Unknown<'p> = Unknown::parse(u.data())?;
+        <T as TryFrom<Unknown<'p>>>::try_from(second)
+    });
+    out.kv(pfx, &format!("aso.{k}"), &pres(&owned));
 }
 
 fn unknown_body(out: &mut Out, pfx: &str, u: &Unknown, base: Base) {
@@ -371,20 +380,31 @@ fn unknown_body(out: &mut Out, pfx: &str, u: &Unknown, base: Base) {
 
 fn conv_keys<'p, T>(out: &mut Out, pfx: &str, k: &str, pkt: &'p Packet<'p>, bytes: &'p [u8])
 where
-    T: RtcpPacketParser<'p> + TryFrom<&'p Packet<'p>, Error = RtcpParseError> + PartialEq,
+    T: RtcpPacketParser<'p>
+        + TryFrom<&'p Packet<'p>, Error = RtcpParseError>
+        + TryFrom<Packet<'p>, Error = RtcpParseError>
+        + PartialEq,
 {
     let typed = guard(|| T::parse(bytes));
     let conv = guard(|| pkt.try_as::<T>());
+    // the owned `TryFrom<Packet>`: `Packet` is not `Clone`, so a second one is parsed from the
+    // same bytes and consumed
+    let convo = guard(|| {
+        let second: Packet<'p> = Packet::parse(bytes)?;
+        <T as TryFrom<Packet<'p>>>::try_from(second)
+    });
     out.kv(pfx, &format!("typed.{k}"), &pres(&typed));
     out.kv(pfx, &format!("conv.{k}"), &pres(&conv));
-    let same = match (&typed, &conv) {
+    out.kv(pfx, &format!("convo.{k}"), &pres(&convo));
+    let same_as_typed = |r: &Option<Result<T, RtcpParseError>>| match (&typed, r) {
         (Some(a), Some(b)) => match guard(|| a == b) {
             Some(s) => s.to_string(),
             None => "panic".to_string(),
         },
         _ => "panic".to_string(),
     };
-    out.kv(pfx, &format!("conv_same.{k}"), &same);
+    out.kv(pfx, &format!("conv_same.{k}"), &same_as_typed(&conv));
+    out.kv(pfx, &format!("convo_same.{k}"), &same_as_typed(&convo));
 }
 
 /// The `packet` view after its `res` key. `bytes` are the bytes `pkt` was parsed from.
